@@ -409,7 +409,12 @@ class ExprGen:
                 return var
             return p.cel or "null"
         if k < 0.8:
-            return r.choice([t for _, t in self.R.M.LITERALS if "\n" not in t])
+            M = self.R.M
+            core = getattr(M, "N_CORE_LITERALS", len(M.LITERALS))
+            # the escape sweep (a backslash before every character, in every literal form) is 90 % of the literal texts:
+            # it gets a fixed 15 % share so that the core literals stay as frequent as before
+            lits = M.LITERALS[core:] if (core < len(M.LITERALS) and r.random() < 0.15) else M.LITERALS[:core]
+            return r.choice([t for _, t in lits if "\n" not in t])
         return r.choice(["x_undefined", "int", "size", "type", "google.protobuf.Struct", ".y", "[]", "{}", "(1/0)",
                          "class", "lambda", "None", "def", "is", "not", "yield", "package_", "functions", "get",
                          "google.protobuf.Struct{a: 1}", "google.protobuf.Int32Value{value: 2}", "dyn", "has"])
@@ -768,7 +773,8 @@ class C04(Prop):
             "token) applied to value-pool operands of every kind [depth-1: CEL text run on both runners, interpreter outcome compared with "
             "the Lean skeleton fed with the outcome of the primitive applied directly]; random nested ill-typed expressions incl. malformed "
             "macro shapes, host functions raising, package/dotted bindings; expressions at CEL's minimum size limits; random token/byte "
-            "strings for compile (incl. texts without any token); every %-format string x every value, sequence repetition x every integer; "
+            "strings for compile (incl. texts without any token); a backslash before every printable character and incomplete numeric "
+            "escapes in every cooked string/bytes literal form; every %-format string x every value, sequence repetition x every integer; "
             "sequences of 2-4 texts (multi-line, failing on later lines, unparsable, empty) compiled and evaluated out of order through 1-2 "
             "shared Environments with two binding sets. non-trivial = distinct input whose outcome is not a plain value (an error handler, the parser's "
             "error path or a conversion was reached)")
